@@ -223,7 +223,7 @@ MonStep(m, e) ==
     [] e.e = "cancel" -> [OnCancel(m, e) EXCEPT !.call = IF m.call.op = "none" THEN @ ELSE [@ EXCEPT !.cancelled = TRUE]]
     [] e.e = "jumpauth" -> OnJumpAuth(m, e)
     [] e.e = "jumplife" -> OnJumpLife(m, e)
-    [] e.e = "ret" -> OnRet(m, e)
+    [] e.e = "ret" -> IF m.call.op = "none" THEN Flag(m, <<"harness", "result without a call">>) ELSE OnRet(m, e)
     [] e.e = "devret" -> OnDevRet(m, e)
     [] OTHER -> Flag(m, <<"harness", "unknown event">>)
 
